@@ -246,9 +246,18 @@ func C13Rec() {
 		}
 	}
 	bad := vstub.Or(adj[0][0], vstub.Or(adj[1][1], adj[2][2]))
+	// a [deprecated] attribute on a struct field changes nothing: struct fields
+	// are always encoded. variant 0: none, 1: every f field, 2: every field
+	variant := vstub.Choose(0, 2)
+	dep := func(on bool) string {
+		if on {
+			return "[deprecated(\"d\")] "
+		}
+		return ""
+	}
 	var src []byte
 	for i := 0; i < 3; i++ {
-		src = app(src, "struct T", byte('a'+i), " { T", c[i][0], " f; T", c[i][1], " g; }\n")
+		src = app(src, "struct T", byte('a'+i), " { ", dep(variant >= 1), "T", c[i][0], " f; ", dep(variant == 2), "T", c[i][1], " g; }\n")
 	}
 	src = app(src, "message Tm { 1 -> Ta x; 2 -> Tm y; }\n")
 	expect("recursive-struct", src, bad)
@@ -256,11 +265,15 @@ func C13Rec() {
 
 // C13RecOK: recursion through a message or a union is accepted.
 func C13RecOK() {
-	switch vstub.Choose(0, 2) {
+	switch vstub.Choose(0, 5) {
 	case 0:
 		expect("recursion-through-message", []byte("message M { 1 -> M next; 2 -> S s; }\nstruct S { M m; }\n"), false)
 	case 1:
 		expect("recursion-through-union", []byte("union L { 1 -> struct Cons { uint32 head; L tail; } 2 -> struct Nil {} }\n"), false)
+	case 3:
+		expect("recursion-direct-deprecated", []byte("struct S { int32 a; [deprecated(\"no\")] S s; }\n"), true)
+	case 4:
+		expect("recursion-through-array-of-message", []byte("message M { 1 -> S[] list; }\nstruct S { M m; }\n"), false)
 	default:
 		expect("recursion-direct", []byte("struct S { int32 a; S s; }\n"), true)
 	}
